@@ -288,9 +288,11 @@ _add(Prop(
     bounds="one next_squared step from ANY state (window position, contents, running sum) for f32 mono windows N in 1..=4 "
            "and [i16;2] N=2; exact-grid step (i8 inputs, integer oracle) N in {2,3} with |k| <= 15 (quick) and N in {3,4} "
            "over all of i8 (thorough); reset from any state; sqrt wiring with sqrt stubbed by a marker; no_std sqrt for "
-           "every finite x in [2^-100, 2^100] (f32 and f64); thorough: three arbitrary pushes from the zero state (f32, N=2) "
-           "against an f64 recomputation with a rounding bound, and the std sqrt contract",
-    outside="a rigorous error bound for long general-float histories (needs an inductive real-arithmetic error invariant: "
+           "every finite x in [2^-100, 2^100] (f32 and f64)",
+    outside="general-float histories (a 3-push f32 history against an f64 recomputation did not finish in 3000 s) and the std "
+            "build's libm sqrt contract (CBMC's sqrt model returned a counterexample that does not reproduce natively, so it is "
+            "not exact enough to decide the half-ulp clause) - both harnesses were removed rather than claimed; "
+            "a rigorous error bound for long general-float histories (needs an inductive real-arithmetic error invariant: "
             "proof-assistant territory); window lengths > 4; integer formats wider than 8 bits in the exact-grid scheme; "
             "f64 frames in the structural step",
     stubs=["dasp_sample::ops::f32::sqrt -> x + 1.0 marker (wiring::* only)"],
@@ -300,7 +302,6 @@ _add(Prop(
     extra_modules=["c11_nostd"],
     rules=[
         {"match": r"grid_full_", "tier": "thorough", "timeout": 3000},
-        {"match": r"history::|std_sqrt", "tier": "thorough", "timeout": 3000},
     ],
     design_ref="DESIGN.md §4 C11",
     claim="From every state the solver shows one RMS step replaces exactly the oldest square, updates the running sum by "
